@@ -339,11 +339,27 @@ def base2(ctx, prog, cfg):
 
     G = _g.Guards(f)
     arms = {}
+    la = lb = None
+    for b, t in f.calls(False):
+        if mir.callee_short(t) in ("CircularBuffer::as_slices", "CircularBuffer::as_mut_slices"):
+            a0 = mir.strip_casts(f.deep_simplify(f.call_args(b)[0]))
+            ln = ("pcall", "<[T]>::len", (("field", f.call_expr(b), "0"),))
+            if a0 == ("param", 1):
+                la = ln
+            elif a0 == ("param", 2):
+                lb = ln
     for b, t in f.calls(False):
         p = mir.callee_path(t) or ""
         if "PartialEq" not in p or "Ord" in p:
             continue
-        key = tuple(sorted((a[2] for a in G.facts_at(b) if a[0] == "is" and isinstance(a[1], tuple) and a[1][0] == "call" and "Ord>::cmp" in str(a[1][1]))))
+        # the arm a comparison belongs to: how the lengths of the two first segments are ordered there — whether that was
+        # decided by `match a.len().cmp(&b.len())` or by an if / else-if chain
+        key = None
+        if la is not None and lb is not None:
+            Z = G.closure(b, extra_terms=[la, lb])
+            key = ("Less",) if Z.lt(la, lb) else ("Greater",) if Z.lt(lb, la) else ("Equal",) if Z.eq(la, lb) else None
+        if key is None:
+            key = tuple(sorted((a[2] for a in G.facts_at(b) if a[0] == "is" and isinstance(a[1], tuple) and a[1][0] == "call" and "Ord>::cmp" in str(a[1][1]))))
         if not key:
             nots = sorted(a[2] for a in G.facts_at(b) if a[0] == "isnot" and isinstance(a[1], tuple) and a[1][0] == "call" and "Ord>::cmp" in str(a[1][1]))
             key = ("not",) + tuple(nots)
@@ -417,12 +433,40 @@ def elems_source(e, param, allow_bare=False):
         break
     if isinstance(e, tuple) and e[:1] == ("call",) and e[1] in ("CircularBuffer::iter", REF_INTO_ITER) and len(e[2]) == 1:
         return _passthrough_root(e[2][0]) == ("param", param)
+    if _chain_of_slices(e, param):
+        return True
     return allow_bare and _passthrough_root(e) == ("param", param)
+
+
+def _chain_of_slices(e, param):
+    """`a.iter().chain(b)` (or `.chain(b.iter())`) over the two pieces (a, b) of one `p.as_slices()`, in that order: the
+    in-order element sequence, spelled with slices (it is what `iter()` is made of)"""
+    e = mir.strip_casts(e)
+    if not (isinstance(e, tuple) and e[:1] == ("call",) and str(e[1]).endswith("Iterator::chain") and len(e[2]) == 2):
+        return False
+
+    def piece_of(x):
+        x = mir.strip_casts(x)
+        for _ in range(4):
+            if isinstance(x, tuple) and x[:1] == ("call",) and (x[1] in ("<[T]>::iter", "<I as IntoIterator>::into_iter") or str(x[1]).endswith("IntoIterator>::into_iter")) and len(x[2]) == 1:
+                x = mir.strip_casts(x[2][0])
+                continue
+            if isinstance(x, tuple) and x and x[0] == "ref" and isinstance(x[1], tuple) and x[1][0] == "local" and len(x[1]) > 2:
+                x = mir.strip_casts(x[1][2])
+                continue
+            break
+        if isinstance(x, tuple) and x[:1] == ("field",) and x[2] in ("0", "1") and isinstance(x[1], tuple) and x[1][:2] == ("call", "CircularBuffer::as_slices") and len(x[1][2]) == 1 \
+                and _passthrough_root(x[1][2][0]) == ("param", param):
+            return x[2], x[1]
+        return None
+
+    a, b = piece_of(e[2][0]), piece_of(e[2][1])
+    return a is not None and b is not None and a[0] == "0" and b[0] == "1" and a[1] == b[1]
 
 
 HASH_FN = "<CircularBuffer<N, T> as Hash>::hash"
 _HASH_PLUMBING = ("CircularBuffer::len", "CircularBuffer::iter", "<I as IntoIterator>::into_iter", REF_INTO_ITER, "<Iter<T> as Iterator>::next",
-                  "Iterator::for_each")
+                  "Iterator::for_each", "CircularBuffer::as_slices", "<[T]>::iter", "Iterator::chain", "<Chain<A, B> as Iterator>::next")
 
 
 def hash1(ctx, prog, cfg):
@@ -471,15 +515,31 @@ def hash1(ctx, prog, cfg):
         g, b = elems[0]
         a = [g.deep_simplify(x) for x in g.call_args(b)]
         iters = f.calls_to("CircularBuffer::iter", unwind=False) + f.calls_to(REF_INTO_ITER, unwind=False)
-        if len(iters) != 1 or [_passthrough_root(f.deep_simplify(x)) for x in f.call_args(iters[0][0])] != [("param", 1)]:
-            why.append("the elements do not come from exactly one `self.iter()`")
+        chains = [cb for cb, ct in f.calls(False) if (mir.callee_path(ct) or "").endswith("Iterator::chain")]
+        one_iter = len(iters) == 1 and not chains and [_passthrough_root(f.deep_simplify(x)) for x in f.call_args(iters[0][0])] == [("param", 1)]
+        one_chain = not iters and len(chains) == 1 and _chain_of_slices(f.deep_simplify(f.call_expr(chains[0])), 1) \
+            and len(f.calls_to("CircularBuffer::as_slices", unwind=False)) == 1
+        if not (one_iter or one_chain):
+            why.append("the elements do not come from exactly one `self.iter()` (or one `a.iter().chain(b)` over one `self.as_slices()`)")
         if g is f:
             it = ("call", "CircularBuffer::iter", (("param", 1),))
             x = a[0]
             okx = (isinstance(x, tuple) and x[0] == "field" and x[2] == "0" and x[1][0] == "as" and x[1][2] == "Some"
-                   and x[1][1][0] == "call" and x[1][1][1] == "<Iter<T> as Iterator>::next")
+                   and x[1][1][0] == "call" and x[1][1][1] in ("<Iter<T> as Iterator>::next", "<Chain<A, B> as Iterator>::next"))
             if okx:
-                okx = elems_source(x[1][1][2][0], 1)
+                src_ = mir.strip_casts(x[1][1][2][0])
+                if isinstance(src_, tuple) and src_[0] == "ref" and isinstance(src_[1], tuple) and src_[1][0] == "local" and len(src_[1]) == 3 \
+                        and isinstance(src_[1][2], tuple) and src_[1][2][:1] == ("phi",) and len(src_[1][2]) == 3:
+                    # the loop's iterator variable: what it is when the loop is entered
+                    h_, var_ = src_[1][2][1], src_[1][2][2]
+                    ins_ = []
+                    for p_ in g.preds(False).get(h_, []):
+                        if g.dominates(h_, p_, False):
+                            continue  # a back edge
+                        ins_.append(g.deep_simplify(g.version_expr(g.version_at(p_, len(g.blocks[p_]["stmts"]) + 1, var_))))
+                    okx = len(ins_) == 1 and elems_source(ins_[0], 1)
+                else:
+                    okx = elems_source(src_, 1)
             if not okx:
                 why.append("the hashed item `%s` is not the item produced by `self.iter()`" % mir.fmt(x, g))
             if a[1] != ("param", 2):
